@@ -59,13 +59,22 @@ Section Wrap.
   Definition append_line (cur_indent : N) (formatted : str) (cl : CommentLine) : str :=
     formatted ++ rep space cur_indent ++ to_string cl ++ [nl].
 
+  (* word.starts_with(['/', '!']) *)
+  Definition starts_prefix_char (word : str) : bool :=
+    match word with c :: _ => (c =? slash) || (c =? excl) | [] => false end.
+
   (* body of `for word in orig_comment_line.content.split(' ')`;
-     state = (formatted_comment, current_line, last_line_broken) *)
-  Definition word_step (cur_indent max_comment_width : N)
+     state = (formatted_comment, current_line, last_line_broken);
+     orig_spaces = orig_comment_line.n_leading_spaces *)
+  Definition word_step (cur_indent max_comment_width orig_spaces : N)
              (st : str * CommentLine * bool) (word : str) : str * CommentLine * bool :=
     let '(formatted, current_line, last_line_broken) := st in
     if is_nil (content current_line)
        || (blen (content current_line) + blen word <=? max_comment_width)
+       (* The empty word of a double space never starts a line of its own. *)
+       || is_nil (trim word)
+       (* A word that would be read back as part of the comment prefix stays on its line. *)
+       || ((orig_spaces =? 0) && starts_prefix_char word)
     then (formatted, with_content current_line (content current_line ++ word ++ [space]),
           last_line_broken)
     else (append_line cur_indent formatted current_line,
@@ -85,7 +94,7 @@ Section Wrap.
       else (append_line cur_indent formatted prev_comment_line, with_content orig [])
     in
     let '(formatted2, current_line2, last_line_broken2) :=
-      fold_left (word_step cur_indent max_comment_width) (split_on space (content orig))
+      fold_left (word_step cur_indent max_comment_width (n_leading_spaces orig)) (split_on space (content orig))
                 (formatted1, current_line, false) in
     (formatted2, with_content orig (trim (content current_line2)), last_line_broken2).
 
